@@ -235,11 +235,21 @@ theorem assemble_depth_bounded (es : List Nest.Ev) :
     ∀ t ∈ Nest.runEvents Nest.St.init es, t.frames ≤ 2 + maxNestedIfs + includeDepthMax :=
   Nest.frames_bounded es
 
-example : (Nest.runEvents Nest.St.init (List.replicate 500 Nest.Ev.ifOpen)).length = 129 := by
+example : (Nest.runEvents Nest.St.init (List.replicate 500 Nest.Ev.ifTaken)).length = 129 := by
   decide +kernel
+/-- the same through the SECOND recursion site (`.if 0` / `.else`), and for any mixture of the two -/
+example : (Nest.runEvents Nest.St.init (List.replicate 500 Nest.Ev.ifElse)).length = 129 := by
+  decide +kernel
+example : (Nest.runEvents Nest.St.init
+    ((List.replicate 100 [Nest.Ev.ifTaken, Nest.Ev.ifElse, Nest.Ev.ifSkipped]).flatten)).length = 192 := by
+  decide +kernel
+example : Nest.maxFrames Nest.St.init (List.replicate 50000 Nest.Ev.ifElse) = 129 := by decide +kernel
 
+/-- the (MAX_NESTED_IFS + 1)-th open conditional is an error whichever way it would be entered: taken branch,
+    `.else` branch of a false condition, or a false condition that is only skipped -/
 theorem too_many_conditionals_is_error (s : Nest.St) (h : s.ifs = maxNestedIfs) :
-    Nest.step s .ifOpen = none := Nest.too_many_ifs_is_error s h
+    Nest.step s .ifTaken = none ∧ Nest.step s .ifElse = none ∧ Nest.step s .ifSkipped = none :=
+  Nest.too_many_ifs_is_error s h
 
 theorem too_many_includes_is_error (s : Nest.St) (h : s.incs = includeDepthMax) :
     Nest.step s .incOpen = none := Nest.too_many_includes_is_error s h
